@@ -23,6 +23,7 @@ func headersFromAttr(attr *expr.MappedAttributeExpr, rand *expr.ExampleGenerator
 			Example:     openapi.ToJSONExample(attr.Example(rand)),
 			Extensions:  openapi.ExtensionsFromExpr(attr.Meta),
 		}
+		bytesAsText(header.Schema, attr)
 		initExamples(header, attr, rand)
 		headers[elem] = &HeaderRef{Value: header}
 		return nil
